@@ -58,11 +58,37 @@ def check_with_lines(fx, rep, rule, impl, path, key_prefix):
     except S.Undecidable as e:
         rep.undecidable(rule, "%s/shape/%s" % (key_prefix, impl), loc=F.loc(e.node) if isinstance(e.node, dict) else "", construct=e.msg)
         return
-    if len(sy.loop_order) != 1:
+    fm = None
+    if len(sy.loop_order) == 0 and len(res) == 1 and not res[0][0].conds:
+        # `members.find_map(|member| ...)`: None = skip this entry, Some(frame) = emit; exhausted -> None (std semantics)
+        v0 = res[0][1][1]
+        if v0[0] in ("mcall", "call") and v0[1].endswith("Iterator::find_map") and len(v0[2]) == 2 and v0[2][1][0] == "closure":
+            fm = v0
+    if len(sy.loop_order) != 1 and fm is None:
         rep.undecidable(rule, "%s/shape/%s" % (key_prefix, impl), loc=F.short_file(b["sp"]),
                         construct="%d loops in the with-lines iterator (expected exactly one)" % len(sy.loop_order))
         return
-    L = sy.loops[sy.loop_order[0]]
+    if fm is not None:
+        try:
+            cpaths = sy.apply(fm[2][1], [R.ELEM], S.St(), {"sp": "?"})
+        except S.Undecidable as e:
+            rep.undecidable(rule, "%s/shape/%s" % (key_prefix, impl), loc="", construct=e.msg)
+            return
+        lp = []
+        for st_, (k_, v_) in cpaths:
+            st2 = st_.copy()
+            st2.conds = ((("is", R.NEXT, "Some"), True),) + tuple(st_.conds)
+            if v_ == S.NONE:
+                lp.append((st2, (S.CONT, S.UNIT)))
+            else:
+                lp.append((st2, (S.RET, v_)))
+        endst = S.St()
+        endst.conds = ((("is", R.NEXT, "Some"), False),)
+        lp.append((endst, (S.BRK, S.UNIT)))
+        L = dict(paths=lp, entry=S.St(), node=b["body"], index=0, pre=None, find_map=fm)
+        res = [(S.St(), (S.VAL, S.NONE))]       # after exhaustion find_map yields None
+    else:
+        L = sy.loops[sy.loop_order[0]]
     # parameter names: frame is the StackFrame-typed parameter, cache the ProguardCache-typed one
     frame = cache = None
     for prm in b["params"]:
@@ -104,7 +130,7 @@ def check_with_lines(fx, rep, rule, impl, path, key_prefix):
     rep.check(rule, "%s/exhausted-none/%s" % (key_prefix, impl), bool(tail_ok), loc=F.short_file(b["sp"]),
               found=[S.tstr(out[1]) for st, out in tails], expected="None after the last entry", nontrivial=False)
     # the loop is driven by the member iterator parameter, un-adapted
-    drv = driver_of_loop(L)
+    drv = driver_of_loop(L) if not L.get("find_map") else L["find_map"][2][0]
     params = {prm["pat"]["name"] for prm in b["params"] if prm.get("pat") and prm["pat"]["k"] == "Bind"}
     drv_ok = drv is not None and ((drv[0] == "in" and drv[1] in params) or (drv[0] == "place" and drv[1] in params and not drv[2]))
     rep.check(rule, "%s/driver/%s" % (key_prefix, impl), drv_ok, loc=F.loc(L["node"]),
@@ -114,7 +140,10 @@ def check_with_lines(fx, rep, rule, impl, path, key_prefix):
 
 def str_helpers(fx, b):
     out = []
-    for n in F.walk(b["body"]):
+    nodes = list(F.walk(b["body"]))
+    for cb in fx.closures_of(b["path"]):
+        nodes += list(F.walk(cb["body"]))
+    for n in nodes:
         if n.get("k") == "Call" and "fn" in n:
             tgt = fx.by_dp.get(n["fn"].get("dp"))
             if tgt and tgt in fx.bodies and fx.bodies[tgt]["kind"] == "Fn" and fx.bodies[tgt]["krate"] == "proguard":
